@@ -317,6 +317,26 @@ Section Guards.
     && match v_tokens_factory v with None => true | Some _ => false end
     && match v_default v with DFactoryDict => true | _ => false end.
 
+  (* a wildcard field (xs:any, `Optional[object]` / `list[object]`, slice S5 partial) holding generic
+     elements (AnyElement trees): not mixed, not nillable, outside sequence groups, no choices; its own
+     qualified name is admitted by its namespace constraint (the parser looks the bound objects up under it) *)
+  Definition var_common_w (v : xvar) : bool :=      (* XmlVar.any_type is not set on wildcard fields *)
+    v_init v && negb (v_mixed v)
+    && match v_elements v with [] => true | _ => false end
+    && match v_wildcards v with [] => true | _ => false end
+    && negb (v_index v =? 0).
+  Definition wf_wild (v : xvar) : bool :=
+    v_is KWildcard v && var_common_w v && negb (v_nillable v) && no_wrapper v
+    && match v_clazz v with None => true | Some _ => false end
+    && match v_tokens_factory v with None => true | Some _ => false end
+    && match v_sequence v with None => true | Some _ => false end
+    && match_namespace v (v_qname v)
+    && match v_factory v with
+       | None => match v_default v with DNone => true | _ => false end
+       | Some FList => match v_default v with DFactoryList => true | _ => false end
+       | Some FTuple => false
+       end.
+
   Definition wf_text (v : xvar) : bool :=
     v_is KText v && var_common v && negb (v_nillable v) && no_wrapper v
     && match v_clazz v with None => true | Some _ => false end
@@ -436,7 +456,14 @@ Section Guards.
 
   Definition wf_class (m : xmeta) : bool :=
     match m_choices m with [] => true | _ => false end
-    && match m_wildcards m with [] => true | _ => false end
+    && match m_wildcards m with
+       | [] => true
+       | [wv] => wf_wild wv
+                 && match assoc (v_qname wv) (m_elements m) with None => true | Some _ => false end
+                 && match assoc (v_qname wv) (m_wrappers m) with None => true | Some _ => false end
+                 && match m_text m with None => true | Some _ => false end
+       | _ => false
+       end
     && match m_any_attributes m with [] => true | [av] => wf_anyattr av | _ => false end
     (* the wrapper table knows every wrapper element, and no element field is named like a wrapper *)
     && forallb (fun e => negb (match assoc (fst e) (m_wrappers m) with Some _ => true | None => false end)
@@ -653,6 +680,40 @@ Section Guards.
     | _ => false
     end.
 
+  (* a generic element (AnyElement): a name, attributes with distinct names that are not xsi:nil / xsi:type
+     and values the parser takes literally, no tail (mixed content is outside), a text (never None: an
+     element without text is read back with text "") that is empty when there are child elements
+     (white space next to children is dropped by design), generic children *)
+  Definition any_attr_ok (kv : qname * str) : bool :=
+    negb (reserved_name (fst kv)) && negb (existsb (N.eqb 58) (snd kv)).
+  Fixpoint fits_anyel (x : value) : bool :=
+    let fix fl (l : list value) : bool := match l with [] => true | y :: r => fits_anyel y && fl r end in
+    match x with
+    | VAny (Some ((_ :: _) as q)) (Some s) None attrs children =>
+        nodup_by str_eqb (map fst attrs) && forallb any_attr_ok attrs
+        && match children with [] => true | _ => match s with [] => true | _ => false end end
+        && fl children
+    | _ => false
+    end.
+  (* at the top: the name is admitted by the namespace constraint of the wildcard, it is not the name of an
+     element field or of a wrapper of the class, and no class is registered under it (the parser would
+     build that class: XmlContext.find_type) *)
+  Definition fits_any_top (m : xmeta) (wv : xvar) (x : value) : bool :=
+    fits_anyel x
+    && match x with
+       | VAny (Some q) _ _ _ _ =>
+           match_namespace wv q
+           && match assoc q (m_elements m) with None => true | Some _ => false end
+           && match assoc q (m_wrappers m) with None => true | Some _ => false end
+           && match find_types u q with [] => true | _ => false end
+       | _ => false
+       end.
+  Definition fits_wild (m : xmeta) (wv : xvar) (x : value) : bool :=
+    match v_factory wv with
+    | None => match x with VNone => true | _ => fits_any_top m wv x end
+    | Some _ => match x with VList false l => forallb (fits_any_top m wv) l | _ => false end
+    end.
+
   Definition fits_elem (rec : cls -> value -> bool) (v : xvar) (x : value) : bool :=
     match v_factory v, v_tokens_factory v with
     | None, None =>
@@ -697,6 +758,7 @@ Section Guards.
                && forallb (fun e => forallb (fun v => fits_elem (fits k) v (field_of fs v)) (snd e)) (m_elements m)
                && match m_text m with Some t => fits_text t (field_of fs t) | None => true end
                && match m_any_attributes m with [av] => fits_map m av (field_of fs av) | _ => true end
+               && match m_wildcards m with [wv] => fits_wild m wv (field_of fs wv) | _ => true end
            end
     | _, _ => false
     end.
@@ -705,7 +767,9 @@ End Guards.
 (* no class of the fragment has an attribute map: the hypothesis of the theorems that speak about EVERY
    attribute order (a map comes back in the order the attributes were reported) *)
 Definition nomaps_u (u : universe) : bool :=
-  forallb (fun km => negb (wf_class (snd km)) || match m_any_attributes (snd km) with [] => true | _ => false end) (u_metas u).
+  forallb (fun km => negb (wf_class (snd km))
+                     || (match m_any_attributes (snd km) with [] => true | _ => false end
+                         && match m_wildcards (snd km) with [] => true | _ => false end)) (u_metas u).
 
 (* no QName value anywhere in the instance (the canonical reader stream `pump` and the text-level
    theorems are stated for these: a QName needs a prefix binding) *)
@@ -747,5 +811,6 @@ Fixpoint odepth (v : value) : nat :=
   match v with
   | VList _ l => dl l
   | VObj _ fs => S (df fs)
+  | VAny _ _ _ _ ch => S (dl ch)
   | _ => O
   end.
